@@ -435,6 +435,19 @@ theorem locate_file_cached_at_most_once (rc : RCfg) (sched : List Nat) (p k fk :
     callCount (fileSlot rc p k fk) (rexec rc sched).log ≤ 1 :=
   g_at_most_once (toICfg rc) sched _
 
+/-- `HttpSymbolSupplier`'s `FileKey = (ModuleKey, FileKind)`: two lookups share a slot iff they are
+    for the same module key AND the same kind -/
+theorem file_key_iff (rc : RCfg) {i j fk fk' : Nat} (hi : i < rc.M) (hj : j < rc.M) (hf : fk < 3)
+    (hf' : fk' < 3) (p : Nat) :
+    fileSlot rc p (rc.key i) fk = fileSlot rc p (rc.key j) fk' ↔
+      moduleKey rc.mods[i] = moduleKey rc.mods[j] ∧ fk = fk' := by
+  rw [← keyIx_eq_iff hi hj]
+  constructor
+  · intro h
+    have := fileSlot_inj (keyIx_lt hi) (keyIx_lt hj) hf hf' h
+    exact ⟨this.2.1, this.2.2⟩
+  · rintro ⟨h1, h2⟩; unfold RCfg.key; rw [h1, h2]
+
 theorem rexec_allFin (rc : RCfg) (sched : List Nat) :
     gallFin (toICfg rc) (rexec rc sched) =
       allFin (compile (toICfg rc)) (exec (compile (toICfg rc)) sched (init (compile (toICfg rc)))) := by
